@@ -224,6 +224,15 @@ class NamespaceMapper(MutableMapping[str, str]):
                     {k: v for k, v in self._reverse.items()},
                 )
                 self._xmlns_contexts.append(context)
+                for prefix, uri in xmlns:
+                    old_uri = self.namespaces.get(prefix)
+                    if old_uri is not None and old_uri != uri and \
+                            self._reverse.get(old_uri) == (prefix and prefix + ':'):
+                        del self._reverse[old_uri]
+                        for k in reversed(self.namespaces.keys()):
+                            if k != prefix and self.namespaces[k] == old_uri:
+                                self._reverse[old_uri] = k and k + ':'
+                                break
                 self.namespaces.update(xmlns)
                 if level:
                     self._reverse.update((v, k and k + ':') for k, v in xmlns)
